@@ -42,7 +42,8 @@ def make_tree(case, rng):
     n = gen.size(f)
     lab = case["lab"]
     # two-character kinds built at run time: equal strings, distinct objects
-    kind = (lambda i: "".join(["k", "abc"[(i * 7 + 1) % 3]])) if typed else None
+    # (the names contain one another: "k" < "ka" < "kab")
+    kind = (lambda i: "".join(["k", ["", "a", "ab"][(i * 7 + 1) % 3]])) if typed else None
     if lab == "uniq":
         nodes = gen.build(t, f, lambda i: f"n{i}", kind=kind)
     elif lab == "clones":
@@ -147,6 +148,14 @@ def run_case(case, res):
                     chk("last_child", x.last_child(), K[-1] if K else None, x)
                     chk("has_children", x.has_children(), bool(K), x)
                 if typed:
+                    # children by kind: every kind name in use (they contain one another) and an absent one
+                    for kd in ("k", "ka", "kab", "kabc"):
+                        kk = [c for c in K if c.kind == kd]
+                        q = "".join([kd[:1], kd[1:]])
+                        chk(f"has_children({kd})", x.has_children(q), bool(kk), x)
+                        chk(f"get_children({kd})", x.get_children(q), kk, x)
+                        chk(f"first_child({kd})", x.first_child(q), kk[0] if kk else None, x)
+                        chk(f"last_child({kd})", x.last_child(q), kk[-1] if kk else None, x)
                     # typed trees: both the any_kind variants (= untyped answers) and the kind-aware
                     # defaults (= the sibling list filtered by kind) must agree with the shape
                     same = [q for q in sibs if q.kind == x.kind]
